@@ -24,7 +24,7 @@ Definition n (z : Z) : nat := Z.to_nat z.
 Fixpoint find_arr (id : Z) (tr : list oev) : option pkt :=
   match tr with
   | [] => None
-  | OArr a i sz :: r => if i =? id then Some {| src := n a; pid := n i; size := n sz |} else find_arr id r
+  | OArr a i sz :: r => if i =? id then Some {| src := n a; pid := n i; size := Z.to_N sz |} else find_arr id r
   | _ :: r => find_arr id r
   end.
 
@@ -36,11 +36,11 @@ Fixpoint conv (all : list oev) (tr : list oev) : option (list ev) :=
       | None => None
       | Some r' =>
           match e with
-          | OArr a i sz => if (0 <=? a) && (0 <=? i) then Some (EArr {| src := n a; pid := n i; size := n sz |} :: r') else None
+          | OArr a i sz => if (0 <=? a) && (0 <=? i) then Some (EArr {| src := n a; pid := n i; size := Z.to_N sz |} :: r') else None
           | ONew c a => if (0 <=? a) && (0 <=? c) then Some (ENew (n c) (n a) :: r') else None
           | ORead c id fresh off len =>
               match find_arr id all with
-              | Some p => if (0 <=? c) && (0 <=? off) && (0 <=? len) then Some (ERead (n c) p fresh (n off) (n len) :: r') else None
+              | Some p => if (0 <=? c) && (0 <=? off) && (0 <=? len) then Some (ERead (n c) p fresh (Z.to_N off) (Z.to_N len) :: r') else None
               | None => None
               end
           | OEof c => Some (EEof (n c) :: r')
